@@ -118,6 +118,72 @@ def _merge_tags_checked(chk, prog, override):
     return True, ""
 
 
+def _compose_checks_tags(chk, prog, comp):
+    """interpret the loader's compose_node override for a node at every kind of position, with and without a tag that has
+    no constructor: such a node must reach construct_undefined (or a raise); a mapping KEY tagged merge / value and any node
+    with a registered tag must be returned as PyYAML's compose_node gave it"""
+    from ..interp import Interp, show, NONE
+
+    ps = comp.params()
+    if len(ps) < 2:
+        return False, "compose_node override has an unexpected signature"
+    PARENT, INDEX = ("sym", ps[0]), ("sym", ps[1])
+    NODE = ("sym", "<composed node>")
+    MERGE, VALUE = "tag:yaml.org,2002:merge", "tag:yaml.org,2002:value"
+    # (label, parent kind, is key, tag kind, must be rejected)
+    scen = []
+    for pk, key in (("root", False), ("sequence", False), ("mapping", True), ("mapping", False)):
+        pos = "the root" if pk == "root" else ("a sequence item" if pk == "sequence" else ("a mapping key" if key else "a mapping value"))
+        scen.append(("a tag without constructor on %s" % pos, pk, key, "foreign", True))
+        scen.append(("a registered tag on %s" % pos, pk, key, "known", False))
+    scen.append(("the merge key `<<`", "mapping", True, MERGE, False))
+    scen.append(("the value key `=`", "mapping", True, VALUE, False))
+    for label, pk, key, tag, must in scen:
+
+        def hook(it, path, ct, node):
+            if ct[0] == "call" and ct[1][0] == "attr" and ct[1][2] == "compose_node" and ct[1][1][0] in ("super", "call"):
+                return [("value", NODE)]
+            return None
+
+        def decide(it, path, term, pk=pk, key=key, tag=tag):
+            if term == ("isnone", INDEX):
+                return pk == "root" or key
+            if term == ("isnone", PARENT):
+                return pk == "root"
+            if term[0] == "call" and term[1] == ("glob", "ext:builtins.isinstance") and len(term[2]) == 2 and term[2][0] == PARENT:
+                c = term[2][1]
+                kinds = {n[1].split(".")[-1] for n in ([c] if c[0] != "tuple" else list(c[1])) if n[0] == "glob"}
+                return ("MappingNode" in kinds and pk == "mapping") or ("SequenceNode" in kinds and pk == "sequence") or ("CollectionNode" in kinds and pk in ("mapping", "sequence")) or ("Node" in kinds and pk != "root")
+            if term[0] == "cmp" and term[1] in ("==", "!=", "in", "not in") and term[2] == ("attr", NODE, "tag"):
+                r = term[3]
+                if r[0] == "const":
+                    res = (tag == r[1])
+                elif r[0] in ("tuple", "list", "set") and all(x[0] == "const" for x in r[1]):
+                    res = tag in [x[1] for x in r[1]]
+                elif r[0] == "attr" and r[2] in ("yaml_constructors",):
+                    res = tag == "known"
+                else:
+                    return None
+                return res if term[1] in ("==", "in") else (not res)
+            return None
+
+        try:
+            outs = Interp(prog, comp, call_hook=hook, decide=decide, unroll=1, inline=lambda f, ct: f.cls is not None and comp.cls is not None and f.cls.qual in comp.cls.mro and f is not comp and f.name != "compose_node").run()
+        except Undecided as e:
+            return False, "the loader's compose_node override is not understood (%s)" % e
+        chk.count(len(outs))
+        for o in outs:
+            rejected = [e for e in o.path.events if e[0] == "call" and e[1][1][0] == "attr" and e[1][1][2] == "construct_undefined" and list(e[1][2])[:1] == [NODE]]
+            if must and not (rejected or o.kind == "raise"):
+                return False, "the loader's compose_node override lets %s pass" % label
+            if not must:
+                if rejected or o.kind == "raise":
+                    return False, "the loader's compose_node override rejects %s" % label
+                if not (o.kind == "return" and o.value == NODE):
+                    return False, "the loader's compose_node override returns %s instead of the composed node for %s" % (show(o.value) if o.value else o.kind, label)
+    return True, ""
+
+
 def constructor_table_writers(chk):
     """O18.8: the loader's constructor table (with the rejecting catch-all entry for unknown tags) only ever GROWS, through
     add_constructor / add_multi_constructor.  Anything that empties, replaces or removes from it -- a 'reset' after a
@@ -183,9 +249,10 @@ def run(chk):
             chk.undecided("O18.1", cls.qual, "loader bases %s are not recognised" % ext, node=cls.node)
         else:
             # the class body must not register constructors itself
-            # (an override of flatten_mapping is judged by O18.7; it may read, but not write, the constructor table)
+            # (an override of flatten_mapping is judged by O18.7, one of compose_node by O18.9; they may read, but not write,
+            # the constructor table)
             def harmless(n):
-                if not (isinstance(n, ast.FunctionDef) and n.name == "flatten_mapping"):
+                if not (isinstance(n, ast.FunctionDef) and n.name in ("flatten_mapping", "compose_node")):
                     return False
                 writes = any(isinstance(x, ast.Call) and isinstance(x.func, ast.Attribute) and x.func.attr in ("add_constructor", "add_multi_constructor", "add_implicit_resolver", "add_path_resolver") for x in ast.walk(n)) or any(isinstance(x, (ast.Attribute, ast.Subscript)) and isinstance(x.ctx, (ast.Store, ast.Del)) for x in ast.walk(n))
                 return not writes
@@ -427,6 +494,37 @@ def run(chk):
                 node=(override.node if override is not None else cls.node),
                 stmt="merge-value-tag-ignored",
                 input="a: {<<: !Unregistered {x: 1}}",
+            )
+    # ---- O18.9 the other places where PyYAML never looks at a node's tag -----------------------
+    # the value of a `=` key below a scalar-typed mapping (`!!str {=: !!python/name:os.system x}`) and the one-pair mappings
+    # of !!omap / !!pairs are used without being constructed.  The one place that sees EVERY node is Composer.compose_node:
+    # the loader must reject a tag without constructor there (merge / value tags of mapping KEYS excepted), or guard each
+    # consumer on its own.
+    consumers = libfacts.yaml_tag_skipping_consumers()
+    chk.facts.update({"PyYAML " + k: v for k, v in consumers.items()})
+    skipping = [k for k, v in consumers.items() if v is not False and not k.startswith("Composer")]
+    if cls is not None and skipping:
+        chk.count(len(skipping))
+        comp = None
+        for q in cls.mro:
+            c = prog.classes.get(q)
+            f = prog.pick(c.methods.get("compose_node", [])) if c is not None else None
+            if f is not None:
+                comp = f
+                break
+        good, why = (False, "the loader neither checks every node when it is composed (no compose_node override) nor guards these consumers")
+        if comp is not None:
+            good, why = _compose_checks_tags(chk, prog, comp)
+        if good:
+            chk.ok("O18.9", comp.qual, "every composed node whose tag has no constructor is rejected at composition (merge / value tags of mapping keys excepted): covers %s" % "; ".join(skipping), node=comp.node)
+        else:
+            chk.bad(
+                "O18.9",
+                cls.qual,
+                "a python/* tag or an unregistered !tag is silently ignored instead of rejected at positions the installed PyYAML uses without constructing them -- %s -- e.g. `a: !!str {=: !!python/name:os.system x}` or `a: !!omap [ !!python/object/apply:os.system {k: 1} ]` load without error: %s" % ("; ".join(skipping), why),
+                node=(comp.node if comp is not None else cls.node),
+                stmt="unconstructed-node-tag-ignored",
+                input="a: !!str {=: !!python/name:os.system x}",
             )
     # ---- O18.5 trusted-base cross-read -------------------------------------------------------
     for fact, confirmed in chk.facts.items():
